@@ -45,7 +45,9 @@ def eval_closure(prog: Program) -> Set[FuncInfo]:
     starts = []
     for c in prog.subclasses(se.qual):
         for nm in ("_evaluate__", "evaluate"):
-            m = c.methods.get(nm)
+            # the method the class *runs* (inherited ones too), with the class as receiver: self.m() in an inherited _evaluate__
+            # resolves to the subclass's override (DomainMapping._evaluate__ -> Attribute._apply_mapping_)
+            m = prog.lookup(c.qual, nm)
             if m is not None:
                 starts.append((m, c.qual))
     fs = {f for f, _ in closure(prog, starts)}
@@ -851,6 +853,29 @@ def domain_cache(prog: Program) -> RuleResult:
             r.check(skip is None, f"{c.name}.{g.name}#drains-before-finishing", site(g), " -> ".join(cfg.describe(skip)) if skip else "",
                     "the iteration ends only after it has advanced the source and found it exhausted",
                     "the iteration can finish without looking at the source: what was not pulled by an earlier, abandoned iteration is never delivered")
+    # whether the object "has something" (its __bool__ reads the source field) must not change by iterating it: the source is put in place when
+    # the object is set up, and nothing that runs during iteration - a generator method, a method in the evaluation closure - replaces it
+    ev = eval_closure(prog)
+    for c, fld, f0, s0, adv in _shared_sources(prog):
+        if not any(g.is_generator for g, _ in adv):
+            continue
+        late = None
+        for q in prog.mro(c.qual):
+            k = prog.classes.get(q)
+            if k is None:
+                continue
+            for g in k.methods.values():
+                if not (g.is_generator or g in ev) or g.name in ("__init__", "__post_init__"):
+                    continue  # a constructor assigns the source of a new object
+                for x in walk_local(g.node):
+                    if isinstance(x, (ast.Assign, ast.AugAssign, ast.AnnAssign)):
+                        for t in (x.targets if isinstance(x, ast.Assign) else [x.target]):
+                            if is_self_attr(t, fld):
+                                late = late or (g, x)
+        r.check(late is None, f"{c.name}.{fld}#set-up-once", site(late[0], late[1]) if late else c.loc, src(late[1])[:80] if late else "", "the source is only assigned when the object is set up",
+                f"{late[0].short if late else ''} replaces {c.name}.{fld} while the object is being iterated / evaluated: an object whose truth is read from that field (a variable asks "
+                "`elif self._domain_:`) answers differently before and after its first exhaustion - a domain that holds no value of the variable's type is 'no domain' the second "
+                "time, and the variable raises instead of yielding nothing")
     if n == 0:
         r.ok("eql#no-caching-iterator", "src/krrood/entity_query_language", "", "no caching iterator over a one-shot source")
         r.floor = 1
